@@ -441,6 +441,9 @@ class URL:
             )
 
         self = object.__new__(URL)
+        # The scheme is case-insensitive and stored lowercase,
+        # the same as by the parser and by with_scheme().
+        scheme = scheme.lower()
         self._scheme = scheme
         _host: Union[str, None] = None
         if authority:
